@@ -31,7 +31,7 @@ def _build(repo, feats=None):
     if os.path.exists(lock):
         shutil.copy(lock, os.path.join(src, "Cargo.lock"))
     env = dict(os.environ, CARGO_TARGET_DIR=tgt, CARGO_NET_OFFLINE="true")
-    p = subprocess.run(["cargo", "build", "--offline", "-q"] + (["--features", "frontend"] if "frontend" in feats else []), cwd=src, env=env, capture_output=True, text=True, timeout=1500)
+    p = subprocess.run(["cargo", "build", "--offline", "-q"] + (["--features", ",".join(feats)] if feats else []), cwd=src, env=env, capture_output=True, text=True, timeout=1500)
     if p.returncode != 0:
         return None, p.stderr[-1500:]
     return os.path.join(tgt, "debug", "verif_replay"), ""
